@@ -10,6 +10,9 @@
 //	             <dependencyManagement>, plugin <dependencies>, profile <dependencies> and <parent> are written
 //	             before/after as "other sections"; their coordinates are recorded in Elsewhere (the statement does
 //	             not say whether they count, so the oracle only demands that they do not disturb the Entries).
+//	             Further other sections, in any position: reporting / build with a javadoc <links><link>,
+//	             properties or ciManagement configuration with elements named like HTML void elements (link, param,
+//	             base, meta, input, ...), licenses, scm (URL with &amp;), description with entities — all well-formed.
 //	             groupId/artifactId/scope never contain ${...} (the statement is silent about interpolation);
 //	             properties are used in <version> only, which is not asserted.
 //	build.gradle one top-level `dependencies { }` closure; Entries are its statements in order:
@@ -19,6 +22,8 @@
 //	             map notation), command and parenthesised. `buildscript { dependencies { classpath .. } }` is an
 //	             "other section" (Elsewhere). Blocks around: plugins, apply, repositories, configurations, ext,
 //	             android, test, task, jar, tasks.withType.
+//	dual build   a project may carry a pom.xml and a build.gradle side by side (Project.Second); the artifact ids of
+//	             the two files are disjoint, so every reported entry can be attributed to the file declaring it.
 //	Java         0-6 files (class / interface, a few enum / annotation-type files), under src/main/java and
 //	             src/test/java, importing a chosen subset of the declared groups (single-type, on-demand, static),
 //	             plus near-miss imports (a proper prefix of a group) and unrelated imports.
@@ -58,9 +63,10 @@ type Build struct {
 	FileName  string   `json:"file"`
 	Text      string   `json:"text"`
 	Entries   []Entry  `json:"entries"`
-	Elsewhere []Entry  `json:"elsewhere,omitempty"` // coordinates written in other sections (not asserted to be absent)
-	Layout    []string `json:"layout"`              // names of the sections/blocks in file order
-	HasBlock  bool     `json:"has_block"`           // a dependencies block is present at all
+	Elsewhere []Entry  `json:"elsewhere,omitempty"`  // coordinates written in other sections (not asserted to be absent)
+	Layout    []string `json:"layout"`               // names of the sections/blocks in file order
+	HasBlock  bool     `json:"has_block"`            // a dependencies block is present at all
+	VoidNamed []string `json:"void_named,omitempty"` // sections that contain an element named like an HTML void element (link, param, base, ...)
 }
 
 // JavaFile is one generated source file.
@@ -73,9 +79,11 @@ type JavaFile struct {
 
 // Project = manifest + sources.
 type Project struct {
-	Build *Build     `json:"build"`
-	Java  []JavaFile `json:"java"`
-	Mode  string     `json:"mode"` // how the used subset was chosen
+	Build *Build `json:"build"`
+	// Second is the other build file of a dual-build project (a pom.xml and a build.gradle side by side); nil otherwise
+	Second *Build     `json:"second,omitempty"`
+	Java   []JavaFile `json:"java"`
+	Mode   string     `json:"mode"` // how the used subset was chosen
 }
 
 var realGroups = []string{
@@ -250,8 +258,8 @@ func elsewhereEntry(r *run.Rand, section string, i int) Entry {
 		Version: r.Pick(versions)}
 }
 
-// GenMaven generates a pom.xml.
-func GenMaven(r *run.Rand) *Build {
+// GenMaven generates a pom.xml; artOff is added to the index that makes artifact ids unique (second build file of a project).
+func GenMaven(r *run.Rand, artOff int) *Build {
 	b := &Build{System: "maven", FileName: "pom.xml"}
 	n := 0
 	switch {
@@ -265,7 +273,7 @@ func GenMaven(r *run.Rand) *Build {
 	groups := pickGroups(r.Fork(), n)
 	er := r.Fork()
 	for i := 0; i < n; i++ {
-		e := Entry{Kind: KindString, Group: groups[i], Artifact: artifactFor(er, i)}
+		e := Entry{Kind: KindString, Group: groups[i], Artifact: artifactFor(er, i+artOff)}
 		if er.Chance(3, 5) {
 			e.Version = er.Pick(versions)
 			if er.Chance(1, 5) {
@@ -389,6 +397,74 @@ func GenMaven(r *run.Rand) *Build {
 	if sr.Chance(1, 6) {
 		secs = append(secs, section{"modules", indent(1) + "<modules>\n" + indent(2) + "<module>core</module>\n" + indent(1) + "</modules>\n"})
 	}
+	// Well-formed XML whose element names coincide with HTML void elements (link, param, base, meta, input, col, img,
+	// hr, br, area, frame): plugin configurations and properties use such names freely. A decoder must not treat them
+	// specially, wherever the section stands relative to <dependencies>.
+	xr := r.Fork()
+	voidNames := []string{"link", "param", "base", "meta", "input", "col", "img", "hr", "br", "area", "frame"}
+	if xr.Chance(1, 3) {
+		sec := xr.Pick([]string{"reporting", "build-javadoc"})
+		var s strings.Builder
+		openTag, closeTag := indent(1)+"<reporting>\n", indent(1)+"</reporting>\n"
+		name := "reporting"
+		if sec == "build-javadoc" {
+			// the javadoc plugin configured under <build> instead of <reporting>; a pom has one <build>, so this
+			// variant is used only when no <build> section was generated above
+			hasBuild := false
+			for _, sc := range secs {
+				if sc.name == "build" {
+					hasBuild = true
+				}
+			}
+			if !hasBuild {
+				openTag, closeTag, name = indent(1)+"<build>\n", indent(1)+"</build>\n", "build"
+			}
+		}
+		s.WriteString(openTag + indent(2) + "<plugins>\n" + indent(3) + "<plugin>\n" + indent(4) + "<groupId>org.apache.maven.plugins</groupId>\n" +
+			indent(4) + "<artifactId>maven-javadoc-plugin</artifactId>\n" + indent(4) + "<configuration>\n" + indent(5) + "<links>\n")
+		for k := xr.Range(1, 2); k > 0; k-- {
+			s.WriteString(indent(6) + "<link>https://docs.example.org/api/" + xr.Pick(words) + "/</link>\n")
+		}
+		s.WriteString(indent(5) + "</links>\n" + indent(4) + "</configuration>\n" + indent(3) + "</plugin>\n" + indent(2) + "</plugins>\n" + closeTag)
+		secs = append(secs, section{name + "+link", s.String()})
+		b.VoidNamed = append(b.VoidNamed, name+"+link")
+	}
+	if xr.Chance(1, 4) {
+		// custom plugin configuration / properties with freely named elements
+		n1, n2 := xr.Pick(voidNames), xr.Pick(voidNames)
+		var s strings.Builder
+		if xr.Bool() {
+			hasProps := false
+			for _, sc := range secs {
+				if sc.name == "properties" {
+					hasProps = true
+				}
+			}
+			if !hasProps {
+				s.WriteString(indent(1) + "<properties>\n" + indent(2) + "<" + n1 + ">" + xr.Pick([]string{"target/site", "1.8", "true", "https://example.org"}) + "</" + n1 + ">\n")
+				if n2 != n1 {
+					s.WriteString(indent(2) + "<" + n2 + ">" + xr.Pick(words) + "</" + n2 + ">\n")
+				}
+				s.WriteString(indent(1) + "</properties>\n")
+				secs = append(secs, section{"properties+" + n1, s.String()})
+				b.VoidNamed = append(b.VoidNamed, "properties+"+n1)
+			}
+		} else {
+			s.WriteString(indent(1) + "<distributionManagement>\n" + indent(2) + "<site>\n" + indent(3) + "<id>site</id>\n" + indent(3) + "<url>scp://example.org/www</url>\n" + indent(2) + "</site>\n" +
+				indent(1) + "</distributionManagement>\n")
+			s.WriteString(indent(1) + "<ciManagement>\n" + indent(2) + "<system>jenkins</system>\n" + indent(2) + "<notifiers>\n" + indent(3) + "<notifier>\n" + indent(4) + "<configuration>\n" +
+				indent(5) + "<" + n1 + ">" + xr.Pick(words) + "</" + n1 + ">\n" + indent(4) + "</configuration>\n" + indent(3) + "</notifier>\n" + indent(2) + "</notifiers>\n" + indent(1) + "</ciManagement>\n")
+			secs = append(secs, section{"ciManagement+" + n1, s.String()})
+			b.VoidNamed = append(b.VoidNamed, "ciManagement+"+n1)
+		}
+	}
+	if xr.Chance(1, 4) {
+		secs = append(secs, section{"licenses", indent(1) + "<licenses>\n" + indent(2) + "<license>\n" + indent(3) + "<name>Apache-2.0</name>\n" + indent(3) +
+			"<url>https://www.apache.org/licenses/LICENSE-2.0.txt</url>\n" + indent(2) + "</license>\n" + indent(1) + "</licenses>\n"})
+	}
+	if xr.Chance(1, 4) {
+		secs = append(secs, section{"scm", indent(1) + "<scm>\n" + indent(2) + "<url>https://example.org/scm/demo?a=1&amp;b=2</url>\n" + indent(2) + "<connection>scm:git:https://example.org/demo.git</connection>\n" + indent(1) + "</scm>\n"})
+	}
 	if blockForm != "absent" {
 		secs = append(secs, section{"dependencies", depBlock.String()})
 	}
@@ -419,7 +495,7 @@ func GenMaven(r *run.Rand) *Build {
 		t.WriteString(indent(1) + "<packaging>" + r.Pick([]string{"jar", "war", "pom"}) + "</packaging>\n")
 	}
 	if r.Chance(1, 2) {
-		t.WriteString(indent(1) + "<name>demo</name>\n" + indent(1) + "<description>Demo project</description>\n")
+		t.WriteString(indent(1) + "<name>demo</name>\n" + indent(1) + "<description>" + r.Pick([]string{"Demo project", "Demo &amp; co", "a &lt;small&gt; demo"}) + "</description>\n")
 	}
 	for _, i := range p {
 		if r.Chance(1, 3) {
@@ -655,7 +731,7 @@ func gradleBlocks(r *run.Rand, b *Build) (pre, post []gblock) {
 }
 
 // GenGradle generates a build.gradle.
-func GenGradle(r *run.Rand) *Build {
+func GenGradle(r *run.Rand, artOff int) *Build {
 	b := &Build{System: "gradle", FileName: "build.gradle"}
 	form := "block"
 	n := 0
@@ -675,7 +751,7 @@ func GenGradle(r *run.Rand) *Build {
 	policy := er.Pick([]string{"mixed", "mixed", "mixed", "sq-only", "dq-only", "paren-only"})
 	otherRate := er.Pick([]string{"none", "few", "few", "many"})
 	for i := 0; i < n; i++ {
-		e := Entry{Scope: er.Pick(gradleConfs), Group: groups[i], Artifact: artifactFor(er, i)}
+		e := Entry{Scope: er.Pick(gradleConfs), Group: groups[i], Artifact: artifactFor(er, i+artOff)}
 		if er.Chance(3, 4) {
 			e.Version = er.Pick(versions)
 		}
@@ -879,14 +955,16 @@ func importFor(r *run.Rand, g string) imp {
 var unrelatedImports = []string{"java.util.List", "java.util.Map", "java.io.IOException", "java.util.concurrent.atomic.AtomicLong", "javax.annotation.Nullable", "com.app.internal.Helper", "com.app.model.Order"}
 
 // GenJava generates the source tree for the given manifest.
-func GenJava(r *run.Rand, b *Build) ([]JavaFile, string) {
+func GenJava(r *run.Rand, builds ...*Build) ([]JavaFile, string) {
 	// distinct groups in declaration order (string and map entries)
 	var groups []string
 	seen := map[string]bool{}
-	for _, e := range b.Entries {
-		if e.Group != "" && !seen[e.Group] {
-			seen[e.Group] = true
-			groups = append(groups, e.Group)
+	for _, b := range builds {
+		for _, e := range b.Entries {
+			if e.Group != "" && !seen[e.Group] {
+				seen[e.Group] = true
+				groups = append(groups, e.Group)
+			}
 		}
 	}
 	mode := "subset"
@@ -1006,26 +1084,49 @@ func GenJava(r *run.Rand, b *Build) ([]JavaFile, string) {
 	return files, mode
 }
 
-// Generate builds a whole project for one build system.
-func Generate(r *run.Rand, system string) *Project {
-	var b *Build
-	if system == "maven" {
-		b = GenMaven(r.Fork())
-	} else {
-		b = GenGradle(r.Fork())
+// Builds returns the build files of the project.
+func (p *Project) Builds() []*Build {
+	if p.Second != nil {
+		return []*Build{p.Build, p.Second}
 	}
-	files, mode := GenJava(r.Fork(), b)
-	return &Project{Build: b, Java: files, Mode: mode}
+	return []*Build{p.Build}
+}
+
+// Generate builds a whole project. system is the (first) build system; dual adds the other system's build file to
+// the same directory, with artifact ids disjoint from the first file's (so that every observed entry can be
+// attributed to the file that declares it).
+func Generate(r *run.Rand, system string, dual bool) *Project {
+	gen := func(sys string, off int) *Build {
+		if sys == "maven" {
+			return GenMaven(r.Fork(), off)
+		}
+		return GenGradle(r.Fork(), off)
+	}
+	b := gen(system, 0)
+	jr := r.Fork()
+	p := &Project{Build: b}
+	if dual {
+		other := "gradle"
+		if system == "gradle" {
+			other = "maven"
+		}
+		p.Second = gen(other, 100)
+	}
+	p.Java, p.Mode = GenJava(jr, p.Builds()...)
+	return p
 }
 
 // ShapeKey is the structural description of a case (no random names).
 func (p *Project) ShapeKey() string {
 	var s []string
-	s = append(s, p.Build.System, strings.Join(p.Build.Layout, ","))
-	for _, e := range p.Build.Entries {
-		s = append(s, e.Style+"/"+strings.Join(e.Children, "."))
+	for _, b := range p.Builds() {
+		s = append(s, b.System, strings.Join(b.Layout, ","))
+		for _, e := range b.Entries {
+			s = append(s, e.Style+"/"+strings.Join(e.Children, "."))
+		}
+		s = append(s, "|")
 	}
-	s = append(s, "|", p.Mode)
+	s = append(s, p.Mode)
 	for _, f := range p.Java {
 		s = append(s, fmt.Sprintf("%s%d", f.Kind[:1], len(f.Imports)))
 	}
